@@ -48,7 +48,7 @@ def DbShape (db : DB) : Prop :=
   ∀ k imps, db.lookup k = some imps → ∀ imp ∈ imps, imp.importAs ≠ imp.fullname → ∃ n, imp.importAs = [n]
 
 section
-variable {U : Univ W} {known : W → Obj → Prop} (hS : Sound U known)
+variable {U : Univ W} {inv : W → Prop} {known : W → Obj → Prop} (hS : Sound U inv known)
 include hS
 
 theorem settles_of_walk {w : W} {ns : NS} {hd : Name} {tl : List Name} {v : Obj}
@@ -66,7 +66,7 @@ theorem sni_false_of_binding {w : W} {nss : List NS} {i : Nat} {hd : Name} {tl :
 
 theorem ancestorLoop_true_resolved (tgt : Nat) (ps : List Dotted) (st st' : State W)
     (h : ancestorLoop U tgt ps st = (true, st')) (htgt : tgt < st.nss.length) (hne : ∀ p ∈ ps, p ≠ [])
-    (hk : NsKnown known st.w st.nss) :
+    (hinv : inv st.w) (hk : NsKnown known st.w st.nss) :
     ∀ p ∈ ps, symbolNeedsImport U st'.w st'.nss p = false := by
   induction ps generalizing st with
   | nil => simp
@@ -79,9 +79,9 @@ theorem ancestorLoop_true_resolved (tgt : Nat) (ps : List Dotted) (st st' : Stat
     · rename_i hs
       intro q hq
       rcases List.mem_cons.1 hq with rfl | hq
-      · have := (Reach.resolved_stable hS (hreach st) q).2 hk hs
+      · have := (Reach.resolved_stable hS (hreach st) q).2.2 hinv hk hs
         rw [h] at this; exact this
-      · exact ih st h htgt hne' hk q hq
+      · exact ih st h htgt hne' hinv hk q hq
     · split at h
       · simp at h
       · split at h
@@ -90,10 +90,13 @@ theorem ancestorLoop_true_resolved (tgt : Nat) (ps : List Dotted) (st st' : Stat
           · simp at h
           · rename_i hr
             have hr' : (tryImport U ⟨p, p⟩ tgt true (st.withW (U.exists_ st.w p).2)).1 = true := by simpa using hr
+            have hinv1 : inv (st.withW (U.exists_ st.w p).2).w := hS.inv_step hinv (Or.inr ⟨p, rfl⟩)
             have hk1 : NsKnown known (st.withW (U.exists_ st.w p).2).w (st.withW (U.exists_ st.w p).2).nss :=
-              nsKnown_step hS (Or.inr ⟨p, rfl⟩) hk
-            have hk2 := (Reach.resolved_stable hS (Reach.tryImp (U := U) (P := fun _ _ _ _ => True) ⟨p, p⟩ tgt true
-                (.refl (st.withW (U.exists_ st.w p).2)) trivial) p).1 hk1
+              nsKnown_step hS hinv (Or.inr ⟨p, rfl⟩) hk
+            have hrs := Reach.resolved_stable hS (Reach.tryImp (U := U) (P := fun _ _ _ _ => True) ⟨p, p⟩ tgt true
+                (.refl (st.withW (U.exists_ st.w p).2)) trivial) p
+            have hinv2 := hrs.1 hinv1
+            have hk2 := hrs.2.1 hinv1 hk1
             obtain ⟨v, hex, hl, hw, _, _⟩ := tryImport_true U ⟨p, p⟩ tgt true (st.withW (U.exists_ st.w p).2) _
               (Prod.ext hr' rfl) htgt
             have hlen := tryImport_length U ⟨p, p⟩ tgt true (st.withW (U.exists_ st.w p).2)
@@ -102,7 +105,7 @@ theorem ancestorLoop_true_resolved (tgt : Nat) (ps : List Dotted) (st st' : Stat
             -- `import p` made `p` reachable from the object it bound
             have hres : symbolNeedsImport U ((tryImport U ⟨p, p⟩ tgt true (st.withW (U.exists_ st.w p).2)).2.withAtt p true).w
                 ((tryImport U ⟨p, p⟩ tgt true (st.withW (U.exists_ st.w p).2)).2.withAtt p true).nss p = false := by
-              have hw' := hS.plain_sound hpne hex
+              have hw' := hS.plain_sound hinv1 hpne hex
               simp only [State.withAtt_w, State.withAtt_nss, hw]
               cases p with
               | nil => exact absurd rfl hpne
@@ -110,27 +113,27 @@ theorem ancestorLoop_true_resolved (tgt : Nat) (ps : List Dotted) (st st' : Stat
                 exact sni_false_of_binding (by rw [hlen]; exact htgt) (by rw [name0_plain] at hl; exact hl) hw'
             intro q hq
             rcases List.mem_cons.1 hq with rfl | hq
-            · have := (Reach.resolved_stable hS (hreach _) q).2 (by simpa using hk2) hres
+            · have := (Reach.resolved_stable hS (hreach _) q).2.2 (by simpa using hinv2) (by simpa using hk2) hres
               rw [h] at this; exact this
-            · exact ih _ h (by simp [hlen]; exact htgt) hne' (by simpa using hk2) q hq
+            · exact ih _ h (by simp [hlen]; exact htgt) hne' (by simpa using hinv2) (by simpa using hk2) q hq
 
 theorem autoImportSymbol_true_resolved (db : DB) (hdb : DbKeyed db) (hshape : DbShape db) (viaStr : Bool) (d : Dotted)
-    (st st' : State W) (hnss : st.nss ≠ []) (hd : d ≠ []) (hk : NsKnown known st.w st.nss)
+    (st st' : State W) (hnss : st.nss ≠ []) (hd : d ≠ []) (hinv : inv st.w) (hk : NsKnown known st.w st.nss)
     (h : autoImportSymbol U db viaStr d st = (.ok true, st')) :
     symbolNeedsImport U st'.w st'.nss d = false := by
   have htgt : st.nss.length - 1 < st.nss.length := by
     have : 0 < st.nss.length := List.length_pos_iff.2 hnss
     omega
-  have hloop : ∀ s : State W, s.nss.length = st.nss.length → NsKnown known s.w s.nss →
+  have hloop : ∀ s : State W, s.nss.length = st.nss.length → inv s.w → NsKnown known s.w s.nss →
       (Outcome.ok (ancestorLoop U (st.nss.length - 1) (prefixes d) s).1,
         (ancestorLoop U (st.nss.length - 1) (prefixes d) s).2) = (Outcome.ok true, st') →
       symbolNeedsImport U st'.w st'.nss d = false := by
-    intro s hlen hks hl
+    intro s hlen hinvs hks hl
     have h1 := congrArg Prod.fst hl
     have h2 := congrArg Prod.snd hl
     simp at h1 h2
     exact ancestorLoop_true_resolved hS _ _ s st' (Prod.ext h1 h2) (by rw [hlen]; exact htgt)
-      (fun p hp => prefixes_ne_nil hp) hks d (self_mem_prefixes hd)
+      (fun p hp => prefixes_ne_nil hp) hinvs hks d (self_mem_prefixes hd)
   rw [autoImportSymbol_eq] at h
   split at h
   · rename_i hs
@@ -140,21 +143,23 @@ theorem autoImportSymbol_true_resolved (db : DB) (hdb : DbKeyed db) (hshape : Db
   · split at h
     · simp at h
     · split at h
-      · exact hloop st rfl hk h
+      · exact hloop st rfl hinv hk h
       · simp at h
       · rename_i imp hkn
         obtain ⟨key, hkp, hlk⟩ := getKnownImport_some hkn
         have hias : imp.importAs = key := hdb key [imp] hlk imp (by simp)
         split at h
-        · exact hloop st rfl hk h
+        · exact hloop st rfl hinv hk h
         · split at h
           · simp at h
           · rename_i hr
             have hr' : (tryImport U imp (st.nss.length - 1) false st).1 = true := by simpa using hr
             obtain ⟨v, hex, hl, hw, _, _⟩ := tryImport_true U imp _ false st _ (Prod.ext hr' rfl) htgt
             have hlen := tryImport_length U imp (st.nss.length - 1) false st
-            have hk2 := (Reach.resolved_stable hS (Reach.tryImp (U := U) (P := fun _ _ _ _ => True) imp
-                (st.nss.length - 1) false (.refl st) trivial) d).1 hk
+            have hrs := Reach.resolved_stable hS (Reach.tryImp (U := U) (P := fun _ _ _ _ => True) imp
+                (st.nss.length - 1) false (.refl st) trivial) d
+            have hinv2 := hrs.1 hinv
+            have hk2 := hrs.2.1 hinv hk
             split at h
             · rename_i hcond
               have : st' = _ := (congrArg Prod.snd h).symm
@@ -170,7 +175,7 @@ theorem autoImportSymbol_true_resolved (db : DB) (hdb : DbKeyed db) (hshape : Db
                   have himp : imp = ⟨d, d⟩ := by
                     cases imp; simp at hid hplain ⊢; exact ⟨hplain ▸ hid, hid⟩
                   subst himp
-                  have hw' := hS.plain_sound hd hex
+                  have hw' := hS.plain_sound hinv hd hex
                   cases d with
                   | nil => exact absurd rfl hd
                   | cons hdn tl =>
@@ -178,7 +183,7 @@ theorem autoImportSymbol_true_resolved (db : DB) (hdb : DbKeyed db) (hshape : Db
                 · exact absurd hplain hc
               · -- an alias / from-import: it binds the single name that is the head of `d`
                 obtain ⟨n, hn⟩ := hshape key [imp] hlk imp (by simp) hplain
-                have hop := hS.alias_opaque hplain hex
+                have hop := hS.alias_opaque hinv hplain hex
                 rw [hn] at hop
                 have hkey : key = [n] := by rw [← hias, hn]
                 have hdh : d.head? = some n := by rw [← prefixes_head hkp, hkey]; rfl
@@ -192,14 +197,15 @@ theorem autoImportSymbol_true_resolved (db : DB) (hdb : DbKeyed db) (hshape : Db
                   cases tl with
                   | nil => simp [walk]
                   | cons x xs => simp [walk, hop]
-            · exact hloop _ (by simp [hlen]) (by simpa using hk2) h
+            · exact hloop _ (by simp [hlen]) (by simpa using hinv2) (by simpa using hk2) h
       · simp at h
 
 /-- **C07_success_resolves.**  In a universe satisfying `Sound`, if `auto_import` reports success
     then `symbol_needs_import` is False, in the final namespaces and world, for EVERY missing
     name — later imports of the same call never un-resolve an earlier one. -/
 theorem C07_success_resolves (db : DB) (hdb : DbKeyed db) (hshape : DbShape db) (missing : List Dotted)
-    (st st' : State W) (hnss : st.nss ≠ []) (hne : ∀ d ∈ missing, d ≠ []) (hk : NsKnown known st.w st.nss)
+    (st st' : State W) (hnss : st.nss ≠ []) (hne : ∀ d ∈ missing, d ≠ []) (hinv : inv st.w)
+    (hk : NsKnown known st.w st.nss)
     (h : autoImport U db (some missing) st = (.ok true, st')) :
     ∀ d ∈ missing, symbolNeedsImport U st'.w st'.nss d = false := by
   intro d hd
@@ -209,13 +215,13 @@ theorem C07_success_resolves (db : DB) (hdb : DbKeyed db) (hshape : DbShape db) 
   have hsn : s.nss ≠ [] := by
     intro he; rw [he] at hlen; simp at hlen
     exact hnss (List.eq_nil_of_length_eq_zero hlen.symm)
-  have hks : NsKnown known s.w s.nss := by
-    rw [← hs]; exact (Reach.resolved_stable hS (reach_foldSyms U db pre true st) d).1 hk
-  have hr1 := autoImportSymbol_true_resolved hS db hdb hshape false d s s1 hsn (hne d hd) hks hstep
-  have hks1 : NsKnown known s1.w s1.nss := by
-    have := (Reach.resolved_stable hS (reach_autoImportSymbol U db false d s) d).1 hks
-    rw [hstep] at this; exact this
-  have := (Reach.resolved_stable hS (reach_foldSyms U db post true s1) d).2 hks1 hr1
+  have hrs0 := Reach.resolved_stable hS (reach_foldSyms U db pre true st) d
+  have hinvs : inv s.w := by rw [← hs]; exact hrs0.1 hinv
+  have hks : NsKnown known s.w s.nss := by rw [← hs]; exact hrs0.2.1 hinv hk
+  have hr1 := autoImportSymbol_true_resolved hS db hdb hshape false d s s1 hsn (hne d hd) hinvs hks hstep
+  have hrs1 := Reach.resolved_stable hS (reach_autoImportSymbol U db false d s) d
+  rw [hstep] at hrs1
+  have := (Reach.resolved_stable hS (reach_foldSyms U db post true s1) d).2.2 (hrs1.1 hinvs) (hrs1.2.1 hinvs hks) hr1
   rw [hrest] at this; exact this
 
 end
@@ -376,19 +382,20 @@ open Pfb.AutoImp Pfb.C07
 def toyU : Univ Unit :=
   ⟨fun _ i => (some (i.importAs.length + 10), ()), fun _ _ => (true, ()), fun _ _ => none, fun _ _ _ => none⟩
 
-theorem toy_sound : Sound toyU (fun _ _ => True) where
-  mods_mono := by intro _ _ _ _ _ h; simp [toyU] at h
-  attr_mono := by intro _ _ _ _ _ _ h; simp [toyU] at h
+theorem toy_sound : Sound toyU (fun _ => True) (fun _ _ => True) where
+  inv_step := by intros; trivial
+  mods_mono := by intro _ _ _ _ _ _ h; simp [toyU] at h
+  attr_mono := by intro _ _ _ _ _ _ _ h; simp [toyU] at h
   known_mono := by intros; trivial
-  fresh := by intro _ _ _ _ _ _ h; simp [toyU] at h
+  fresh := by intro _ _ _ _ _ _ _ h; simp [toyU] at h
   known_attr := by intros; trivial
   exec_known := by intros; trivial
   plain_sound := by
-    intro _ p o _ _
+    intro _ p o _ _ _
     cases h : p.tail with
     | nil => simp [walk]
     | cons x xs => simp [walk, toyU]
-  alias_opaque := by intro _ _ _ _ _; simp [toyU]
+  alias_opaque := by intro _ _ _ _ _ _; simp [toyU]
 
 /-- `C07_success_resolves` applied to a non-trivial input: two missing dotted names, a database with
     an alias entry, an initially empty namespace -/
@@ -417,7 +424,7 @@ example :
     · have : (k == [['n', 'p']]) = false := by simpa using hk
       simp [db, List.lookup_cons, this] at hl
   exact C07_success_resolves toy_sound db hdb hshape missing st _ (by simp [st]) (by simp [missing])
-    (fun _ _ _ _ => trivial) (Prod.ext h1 rfl)
+    trivial (fun _ _ _ _ => trivial) (Prod.ext h1 rfl)
 
 def vqa : Name := ['v', 'q', 'a']
 def vqb : Name := ['v', 'q', 'b']
